@@ -22,7 +22,7 @@ CONSTANTS
     MaxSolve,    \* bound on the number of solves per simulation
     MaxIter,     \* bound on the number of saved iterations per simulation
     MaxMesh,     \* bound on the length of a simulation's mesh history
-    Defect,      \* "none" | "coord_no_notify" | "setmesh_no_observe" | "setiter_keeps_maps" | "rho_no_update" | "bc_size_no_update" | "saveiter_wrong_mesh"
+    Defect,      \* "none" | "coord_no_notify" | "setmesh_no_observe" | "setiter_keeps_maps" | "rho_no_update" | "bc_size_no_update" | "saveiter_wrong_mesh" | "move_keeps_simcache"
     CacheOn,     \* BOOLEAN: explore configuration-changing actions
     StoreOn,     \* BOOLEAN: explore iteration-store actions
     Acts,        \* set of enabled action names (lets a configuration focus on a group of actions)
@@ -43,6 +43,7 @@ VARIABLES
     need,        \* [Sims -> BOOLEAN] needUpdate
     asm,         \* [Sims -> config record | NoCfg]  what the cached K, C, M, F were assembled at
     maps,        \* [Sims -> SUBSET record]   memoised sparsity maps: key and the connectivity they were built on
+    gcache,      \* [Sims -> record]          element matrices the simulation caches from the geometry (e.g. the constant mass matrices of HyperElastic): mesh and geometry version they were computed from
     live,        \* [Sims -> [u, va]] tokens of the current fields: 0 = zero field, n = result of the n-th solve
     nsolve,      \* [Sims -> Nat]
     results,     \* [Sims -> Seq(record)]     the iteration store
@@ -50,9 +51,10 @@ VARIABLES
     loaded,      \* [Sims -> BOOLEAN] the simulation object has been written with Save() and replaced by Load_Simu()
     act          \* last action (name and arguments) -- observation only, hidden from the state view
 
-vars  == <<par, geomv, geo, obs, meshList, cur, rho, damp, nlag, bcv, dyn, need, asm, maps, live, nsolve, results, folder, loaded, act>>
-view  == <<par, geomv, geo, obs, meshList, cur, rho, damp, nlag, bcv, dyn, need, asm, maps, live, nsolve, results, folder, loaded>>
+vars  == <<par, geomv, geo, obs, meshList, cur, rho, damp, nlag, bcv, dyn, need, asm, maps, gcache, live, nsolve, results, folder, loaded, act>>
+view  == <<par, geomv, geo, obs, meshList, cur, rho, damp, nlag, bcv, dyn, need, asm, maps, gcache, live, nsolve, results, folder, loaded>>
 
+NoGeo == [mesh |-> "none", geom |-> -1]
 NoCfg == [mesh |-> "none", geom |-> -1, par |-> -1, rho |-> -1, damp |-> -1, size |-> -1]
 
 CurMesh(s) == meshList[s][cur[s]]
@@ -87,6 +89,7 @@ Init ==
     /\ need = [s \in Sims |-> TRUE]
     /\ asm = [s \in Sims |-> NoCfg]
     /\ maps = [s \in Sims |-> {}]
+    /\ gcache = [s \in Sims |-> NoGeo]
     /\ live = [s \in Sims |-> [u |-> 0, va |-> 0]]
     /\ nsolve = [s \in Sims |-> 0]
     /\ results = [s \in Sims |-> <<>>]
@@ -101,21 +104,21 @@ SetParam ==
     /\ par' = par + 1
     /\ need' = [s \in Sims |-> TRUE]
     /\ A("SetParam", <<>>)
-    /\ UNCHANGED <<geomv, geo, obs, meshList, cur, rho, damp, nlag, bcv, dyn, asm, maps, live, nsolve, results, folder>>
+    /\ UNCHANGED <<geomv, geo, obs, meshList, cur, rho, damp, nlag, bcv, dyn, asm, maps, gcache, live, nsolve, results, folder>>
 
 SetRho(s) ==
     /\ CacheOn /\ rho[s] < MaxVer
     /\ rho' = [rho EXCEPT ![s] = @ + 1]
     /\ need' = IF Defect = "rho_no_update" THEN need ELSE [need EXCEPT ![s] = TRUE]
     /\ A("SetRho", <<s>>)
-    /\ UNCHANGED <<par, geomv, geo, obs, meshList, cur, damp, nlag, bcv, dyn, asm, maps, live, nsolve, results, folder>>
+    /\ UNCHANGED <<par, geomv, geo, obs, meshList, cur, damp, nlag, bcv, dyn, asm, maps, gcache, live, nsolve, results, folder>>
 
 SetDamping(s) ==
     /\ CacheOn /\ damp[s] < MaxVer
     /\ damp' = [damp EXCEPT ![s] = @ + 1]
     /\ need' = [need EXCEPT ![s] = TRUE]
     /\ A("SetDamping", <<s>>)
-    /\ UNCHANGED <<par, geomv, geo, obs, meshList, cur, rho, nlag, bcv, dyn, asm, maps, live, nsolve, results, folder>>
+    /\ UNCHANGED <<par, geomv, geo, obs, meshList, cur, rho, nlag, bcv, dyn, asm, maps, gcache, live, nsolve, results, folder>>
 
 (* Translate / Rotate / Symmetry: every group gets new coordinates (which empties its caches), observers are notified *)
 Move(m, kind) ==
@@ -124,7 +127,9 @@ Move(m, kind) ==
     /\ geo' = [geo EXCEPT ![m] = -1]
     /\ need' = [s \in Sims |-> IF s \in obs[m] THEN TRUE ELSE need[s]]
     /\ A(kind, <<m>>)
-    /\ UNCHANGED <<par, obs, meshList, cur, rho, damp, nlag, bcv, dyn, asm, maps, live, nsolve, results, folder>>
+    /\ UNCHANGED <<par, obs, meshList, cur, rho, damp, nlag, bcv, dyn, asm, live, nsolve, results, folder>>
+    /\ maps' = IF Defect = "move_keeps_simcache" THEN maps ELSE [s \in Sims |-> IF s \in obs[m] THEN {} ELSE maps[s]]
+    /\ gcache' = IF Defect = "move_keeps_simcache" THEN gcache ELSE [s \in Sims |-> IF s \in obs[m] THEN NoGeo ELSE gcache[s]]
 
 (* mesh.coord = X  ("re-coordinating"): same obligations as a motion *)
 SetCoord(m) ==
@@ -134,7 +139,9 @@ SetCoord(m) ==
     /\ need' = IF Defect = "coord_no_notify" THEN need
                ELSE [s \in Sims |-> IF s \in obs[m] THEN TRUE ELSE need[s]]
     /\ A("SetCoord", <<m>>)
-    /\ UNCHANGED <<par, obs, meshList, cur, rho, damp, nlag, bcv, dyn, asm, maps, live, nsolve, results, folder>>
+    /\ UNCHANGED <<par, obs, meshList, cur, rho, damp, nlag, bcv, dyn, asm, live, nsolve, results, folder>>
+    /\ maps' = IF Defect = "move_keeps_simcache" THEN maps ELSE [s \in Sims |-> IF s \in obs[m] THEN {} ELSE maps[s]]
+    /\ gcache' = IF Defect = "move_keeps_simcache" THEN gcache ELSE [s \in Sims |-> IF s \in obs[m] THEN NoGeo ELSE gcache[s]]
 
 (* simu.mesh = m : old meshes reset, memo cleared, flag raised, BCs and fields re-initialised, simulation observes m *)
 SetMesh(s, m) ==
@@ -144,6 +151,7 @@ SetMesh(s, m) ==
     /\ geo' = [x \in Meshes |-> IF \E i \in 1..Len(meshList[s]) : meshList[s][i] = x THEN -1 ELSE geo[x]]
     /\ obs' = IF Defect = "setmesh_no_observe" THEN obs ELSE [obs EXCEPT ![m] = @ \cup {s}]
     /\ maps' = [maps EXCEPT ![s] = {}]
+    /\ gcache' = [gcache EXCEPT ![s] = NoGeo]
     /\ need' = [need EXCEPT ![s] = TRUE]
     /\ bcv' = [bcv EXCEPT ![s] = 0]
     /\ nlag' = [nlag EXCEPT ![s] = 0]
@@ -159,7 +167,7 @@ SetBc(s) ==
     /\ nlag' = [nlag EXCEPT ![s] = 0]
     /\ need' = IF nlag[s] # 0 /\ Defect # "bc_size_no_update" THEN [need EXCEPT ![s] = TRUE] ELSE need
     /\ A("SetBc", <<s>>)
-    /\ UNCHANGED <<par, geomv, geo, obs, meshList, cur, rho, damp, dyn, asm, maps, live, nsolve, results, folder>>
+    /\ UNCHANGED <<par, geomv, geo, obs, meshList, cur, rho, damp, dyn, asm, maps, gcache, live, nsolve, results, folder>>
 
 (* one more Dirichlet condition on top of the current set (no Bc_Init) *)
 AddDirichlet(s) ==
@@ -167,7 +175,7 @@ AddDirichlet(s) ==
     /\ bcv' = [bcv EXCEPT ![s] = @ + 1]
     /\ need' = IF nlag[s] # 0 /\ Defect # "bc_size_no_update" THEN [need EXCEPT ![s] = TRUE] ELSE need
     /\ A("AddDirichlet", <<s>>)
-    /\ UNCHANGED <<par, geomv, geo, obs, meshList, cur, rho, damp, nlag, dyn, asm, maps, live, nsolve, results, folder>>
+    /\ UNCHANGED <<par, geomv, geo, obs, meshList, cur, rho, damp, nlag, dyn, asm, maps, gcache, live, nsolve, results, folder>>
 
 (* a Lagrange condition changes the size of the system: flag raised *)
 AddLagrange(s) ==
@@ -175,22 +183,24 @@ AddLagrange(s) ==
     /\ nlag' = [nlag EXCEPT ![s] = 1]
     /\ need' = [need EXCEPT ![s] = TRUE]
     /\ A("AddLagrange", <<s>>)
-    /\ UNCHANGED <<par, geomv, geo, obs, meshList, cur, rho, damp, bcv, dyn, asm, maps, live, nsolve, results, folder>>
+    /\ UNCHANGED <<par, geomv, geo, obs, meshList, cur, rho, damp, bcv, dyn, asm, maps, gcache, live, nsolve, results, folder>>
 
 SetAlgo(s, d) ==
     /\ dyn[s] # d
     /\ dyn' = [dyn EXCEPT ![s] = d]
     /\ A("SetAlgo", <<s, d>>)
-    /\ UNCHANGED <<par, geomv, geo, obs, meshList, cur, rho, damp, nlag, bcv, need, asm, maps, live, nsolve, results, folder>>
+    /\ UNCHANGED <<par, geomv, geo, obs, meshList, cur, rho, damp, nlag, bcv, need, asm, maps, gcache, live, nsolve, results, folder>>
 
 (* ---- observation / solve ------------------------------------------------------------ *)
 AssembleIfNeeded(s) ==
     IF need[s]
-    THEN /\ asm' = [asm EXCEPT ![s] = Cfg(s)]
-         /\ geo' = [geo EXCEPT ![CurMesh(s)] = geomv[CurMesh(s)]]
-         /\ maps' = [maps EXCEPT ![s] = @ \cup {MapKey(s)}]
-         /\ need' = [need EXCEPT ![s] = FALSE]
-    ELSE UNCHANGED <<asm, geo, maps, need>>
+    THEN LET used == IF gcache[s].mesh = CurMesh(s) THEN gcache[s].geom ELSE geomv[CurMesh(s)]   \* a cached entry is reused as it is
+         IN  /\ asm' = [asm EXCEPT ![s] = [Cfg(s) EXCEPT !.geom = used]]
+             /\ gcache' = [gcache EXCEPT ![s] = [mesh |-> CurMesh(s), geom |-> used]]
+             /\ geo' = [geo EXCEPT ![CurMesh(s)] = geomv[CurMesh(s)]]
+             /\ maps' = [maps EXCEPT ![s] = @ \cup {MapKey(s)}]
+             /\ need' = [need EXCEPT ![s] = FALSE]
+    ELSE UNCHANGED <<asm, geo, maps, gcache, need>>
 
 GetKCMF(s) ==
     /\ AssembleIfNeeded(s)
@@ -211,7 +221,7 @@ SaveIter(s) ==
     /\ results' = [results EXCEPT ![s] =
           Append(@, [where |-> folder[s], mi |-> IF Defect = "saveiter_wrong_mesh" THEN Len(meshList[s]) ELSE cur[s], u |-> live[s].u, hasva |-> dyn[s], va |-> IF dyn[s] THEN live[s].va ELSE 0])]
     /\ A("SaveIter", <<s>>)
-    /\ UNCHANGED <<par, geomv, geo, obs, meshList, cur, rho, damp, nlag, bcv, dyn, need, asm, maps, live, nsolve, folder>>
+    /\ UNCHANGED <<par, geomv, geo, obs, meshList, cur, rho, damp, nlag, bcv, dyn, need, asm, maps, gcache, live, nsolve, folder>>
 
 (* restore iteration i: fields come back, the mesh of that iteration becomes current (memo cleared, flag raised) *)
 SetIter(s, i) ==
@@ -221,13 +231,14 @@ SetIter(s, i) ==
          /\ IF r.mi # cur[s]
             THEN /\ cur' = [cur EXCEPT ![s] = r.mi]
                  /\ maps' = IF Defect = "setiter_keeps_maps" THEN maps ELSE [maps EXCEPT ![s] = {}]
+                 /\ gcache' = IF Defect = "setiter_keeps_maps" THEN gcache ELSE [gcache EXCEPT ![s] = NoGeo]
                  /\ need' = [need EXCEPT ![s] = TRUE]
                  (* Boundary conditions are lists of node ids of the mesh they were entered on; the code keeps them   *)
                  (* across the switch.  Environment step composed into this action: the user re-enters the default set *)
                  (* (Bc_Init + conditions) on the restored mesh before anything else happens.                          *)
                  /\ bcv' = [bcv EXCEPT ![s] = 0]
                  /\ nlag' = [nlag EXCEPT ![s] = 0]
-            ELSE UNCHANGED <<cur, maps, need, bcv, nlag>>
+            ELSE UNCHANGED <<cur, maps, gcache, need, bcv, nlag>>
     /\ A("SetIter", <<s, i>>)
     /\ UNCHANGED <<par, geomv, geo, obs, meshList, rho, damp, dyn, asm, nsolve, results, folder>>
 
@@ -240,7 +251,7 @@ SetFolder(s, f) ==
     /\ StoreOn /\ folder[s] # f
     /\ folder' = [folder EXCEPT ![s] = f]
     /\ A("SetFolder", <<s, f>>)
-    /\ UNCHANGED <<par, geomv, geo, obs, meshList, cur, rho, damp, nlag, bcv, dyn, need, asm, maps, live, nsolve, results>>
+    /\ UNCHANGED <<par, geomv, geo, obs, meshList, cur, rho, damp, nlag, bcv, dyn, need, asm, maps, gcache, live, nsolve, results>>
 
 TwoActs == {"SetParam", "SetRho", "Translate", "SetCoord", "SetMesh", "GetKCMF", "Solve", "SaveIter", "SetIter"}
 
@@ -251,7 +262,7 @@ SaveLoad(s, f) ==
     /\ loaded' = [loaded EXCEPT ![s] = TRUE]
     /\ folder' = [folder EXCEPT ![s] = f]
     /\ A("SaveLoad", <<s, f>>)
-    /\ UNCHANGED <<par, geomv, geo, obs, meshList, cur, rho, damp, nlag, bcv, dyn, need, asm, maps, live, nsolve, results>>
+    /\ UNCHANGED <<par, geomv, geo, obs, meshList, cur, rho, damp, nlag, bcv, dyn, need, asm, maps, gcache, live, nsolve, results>>
 
 Next ==
     \/ SetParam
@@ -277,6 +288,8 @@ NoStale ==
     /\ \A m \in Meshes : geo[m] \in {-1, geomv[m]}
 (* C03 / C14: memoised sparsity maps belong to the current connectivity *)
 MapsCurrent == \A s \in Sims : \A k \in maps[s] : k.mesh = CurMesh(s)
+(* values a simulation caches from the geometry belong to the current geometry of the mesh they were computed on *)
+GeoCacheCurrent == \A s \in Sims : gcache[s].mesh # "none" => gcache[s].geom = geomv[gcache[s].mesh]
 (* every simulation observes the mesh it is currently using (what makes Move/SetCoord reach it) *)
 Observing == \A s \in Sims : s \in obs[CurMesh(s)]
 
